@@ -311,7 +311,10 @@ func Worker(o WorkerOpts) (code int) {
 func reportViolation(eng core.Engine, o WorkerOpts, run, seed uint64, res core.Result, tp *tape.Tape, known *KnownFile) (*ViolReport, string) {
 	want := res.Viol.Fingerprint()
 	// reproduce from the tape alone
-	r2, _ := ReplayVals(eng, tp.Vals, false)
+	// (trace mode: engines that cannot own a nondeterminism source of the code
+	// under test — Go map order inside osm.Check/Filter — repeat such calls
+	// many more times when tracing)
+	r2, _ := ReplayVals(eng, tp.Vals, true)
 	if r2.Viol == nil || r2.Viol.Fingerprint() != want {
 		got := "no violation"
 		if r2.Viol != nil {
@@ -320,7 +323,7 @@ func reportViolation(eng core.Engine, o WorkerOpts, run, seed uint64, res core.R
 		return nil, fmt.Sprintf("run %d (seed %d): violation %q did not reproduce from its own tape (got %s): simulator nondeterminism, not reported as a violation", run, seed, want, got)
 	}
 	test := func(vals []uint64) (bool, int) {
-		r, t := ReplayVals(eng, vals, false)
+		r, t := ReplayVals(eng, vals, true)
 		used := t.Used()
 		if t.Overrun > 0 {
 			used = len(vals)
